@@ -13,9 +13,9 @@
      is_anchor .. date a    a is the point of the grid starting at stabilize's initial start
                             whose period contains the date (from, or the earliest posting)
      dur_ok dur             the duration is at least one unit long (the parser rejects 0) *)
-From LedgerV Require Import Base.Prelude Model.PeriodCalendar Model.Period
+From LedgerV Require Import Base.Prelude Model.PeriodCalendar Gen.PeriodSources Model.Period
   Proofs.PeriodCalendarProofs Proofs.PeriodProofs.
-From Coq Require Import Sorting.Sorted.
+From Coq Require Import Sorting.Sorted Sorting.Permutation.
 Local Open Scope Z_scope.
 
 (* adding a duration of at least one unit moves a date strictly forward: days, weeks, and the
@@ -167,6 +167,66 @@ Theorem flush_terminates : forall sow align empty dur from to posts fuel date hi
   exists rows, flush_posts fuel sow align empty (init dur from to) posts = Ok rows.
 Proof. exact flush_posts_total. Qed.
 Print Assumptions flush_terminates.
+
+(* ---- bounds written in the user's --input-date-format ------------------------------------------- *)
+(* the two places of temporal_io_t that derive "has year / month / day" from a format (the constructor,
+   used for the reader --input-date-format creates, and set_format) recognise the same directives;
+   both lists are re-read from src/times.cc on every run (Gen/PeriodSources.v) *)
+Theorem reader_trait_sites_agree : src_reader_traits_ctor = src_reader_traits_set_format.
+Proof. exact reader_trait_sites_agree_lemma. Qed.
+Print Assumptions reader_trait_sites_agree.
+
+(* a from/to/since/until/in date written in a format that has a year (%Y %y %F), a month (%m, a month
+   name %b %B, %F) and a day (%d %F) reaches the interval object as the date the text names - so all
+   theorems above, stated for bounds given as dates, apply to bounds given as text in such a format.
+   (bytes: 37 = %, 121 = y, 70 = F, 109 = m, 98 = b, 100 = d; directives match case-insensitively) *)
+Theorem named_bound_is_the_bound_used : forall fmt cur_year z,
+  (icontains fmt [37; 121] = true \/ icontains fmt [37; 70] = true) ->
+  (icontains fmt [37; 109] = true \/ icontains fmt [37; 98] = true \/ icontains fmt [37; 70] = true) ->
+  (icontains fmt [37; 100] = true \/ icontains fmt [37; 70] = true) ->
+  bound_of_text fmt cur_year z = z.
+Proof. exact bound_of_text_named. Qed.
+Print Assumptions named_bound_is_the_bound_used.
+
+(* ---- --group-by ------------------------------------------------------------------------------------ *)
+(* when interval_posts::clear() empties all_posts (Gen/PeriodSources.v, read from src/filters.h), the
+   groups of --group-by are reported independently: each group's report is flush on its own postings *)
+Theorem group_reports_independent : forall fuel sow align empty st groups,
+  src_interval_clear_resets_all_posts = true ->
+  group_by_report fuel sow align empty st groups =
+  map (fun g => flush_posts fuel sow align empty st (sort_posts [] g)) groups.
+Proof. exact group_reports_independent_lemma. Qed.
+Print Assumptions group_reports_independent.
+
+(* ... so each group's rows hold exactly that group's postings, each in the interval containing its
+   date, and the group's period subtotals add up to the group's own total *)
+Theorem group_subtotals_are_the_groups_postings : forall sow align empty dur from to groups fuel i g rows date,
+  src_interval_clear_resets_all_posts = true ->
+  dur_ok dur -> 0 <= sow < 7 ->
+  (forall f t, from = Some f -> to = Some t -> f < t) ->
+  nth_error groups i = Some g ->
+  nth_error (group_by_report fuel sow align empty (init dur from to) groups) i = Some (Ok rows) ->
+  Forall (fun p => (forall f, from = Some f -> f <= p_date p) /\ past to (p_date p) = false) g ->
+  first_date from (sort_posts [] g) = Some date ->
+  (Z.to_nat (date - initial_start sow align (init dur from to) date) < fuel)%nat ->
+  Permutation (concat (map r_posts rows)) g /\
+  Forall (fun r => exists s e, r_start r = Some s /\ r_eod r = Some e /\
+                               forall p, In p (r_posts r) -> s <= p_date p < e) rows /\
+  (fold_right (fun r acc => qsum (r_posts r) + acc) 0 rows == qsum g)%Q.
+Proof. exact group_subtotals_lemma. Qed.
+Print Assumptions group_subtotals_are_the_groups_postings.
+
+(* F125: while clear() leaves all_posts alone, the second group of
+   `reg -p monthly --group-by payee` on  2021/01/05 alice 1 / 2021/01/20 bob 2  reports 3, not 2 *)
+Theorem group_by_partition_refuted :
+  src_interval_clear_resets_all_posts = false ->
+  exists groups,
+    map (fun r => match r with Ok rows => map (fun w => Qred (qsum (r_posts w))) rows | Err _ => [] end)
+        (group_by_report 100 0 false false (init (mkDur QMonths 1) None None) groups)
+    = [[1%Q]; [3%Q]] /\
+    groups = [[mkPost 18632 1]; [mkPost 18647 2]].
+Proof. exact group_by_leak_lemma. Qed.
+Print Assumptions group_by_partition_refuted.
 
 (* the hypotheses are satisfiable and the functions compute what ledger prints:
    `every 2 weeks from 2020/01/08 to 2020/03/03` (Sunday weeks): 01/08-01/11 (clipped), then
